@@ -1,6 +1,7 @@
 package harness
 
 import (
+	"time"
 	"fmt"
 	"sort"
 	"strings"
@@ -356,6 +357,27 @@ func checkC14Launches(sc *Scenario, t *Truth) []Violation {
 			}
 		}
 	}
+	// a process that an update removed is not probed any more (a prober that was still waiting
+	// out its initial delay must not start afterwards)
+	for _, in := range t.Insts {
+		if in.Kind != "simprobe" {
+			continue
+		}
+		for _, u := range ups {
+			if u.call.RetSeq >= 0 && u.call.Err == "" && u.spec.Proc(in.Token) == nil && sc.Project.Proc(in.Token) != nil && in.ExecT > u.call.RetT+2*time.Second {
+				gone := true
+				for _, u2 := range ups {
+					if u2.call.CallSeq > u.call.CallSeq && u2.spec.Proc(in.Token) != nil {
+						gone = false // (added again later)
+					}
+				}
+				if gone {
+					vs = append(vs, Violation{"C14", "removed-process-still-probed", "", fmt.Sprintf("%s was removed by %s (returned at t=%v) but its probe command was run at t=%v", in.Token, u.call.Desc, u.call.RetT, in.ExecT), in.ExecSeq})
+					return vs
+				}
+			}
+		}
+	}
 	for _, in := range t.Insts {
 		if in.Kind != "simproc" {
 			continue
@@ -617,6 +639,10 @@ func genC14(r *R, sc *Scenario, tier string) {
 		if len(p.Env) == 0 && r.P(200) {
 			// present but empty: not the same thing as absent once it has travelled as JSON
 			p.RawYAML = "    environment: []\n"
+		} else if r.P(150) {
+			// its own log file, time-stamped in the default format: what the logger makes of
+			// that is its own business, the stored configuration stays what the file says
+			p.RawYAML = "    log_location: " + name + ".log\n    log_configuration:\n      add_timestamp: true\n"
 		}
 		if r.P(250) {
 			p.WorkingDir = Pick(r, "d1", "d2")
@@ -639,6 +665,12 @@ func genC14(r *R, sc *Scenario, tier string) {
 		}
 		if r.P(150) {
 			p.Readiness = &ProbeSpec{Token: name, Period: iptr(Pick(r, 1, 2))}
+			if r.P(400) {
+				p.Readiness.InitialDelay = iptr(Pick(r, 3, 5, 8)) // updates meet a prober that still waits
+			}
+		} else if p.Disabled && r.P(500) {
+			// (never started, so the probe never opens a socket: only its configuration travels)
+			p.Readiness = &ProbeSpec{Token: name, HTTP: &HTTPSpec{Host: "localhost", Path: "/h", Port: "8080"}}
 		}
 		sc.Scripts["simprobe:"+name] = &TokenScript{Launches: []simos.Script{{LifeMs: 10, Exit: 0}}}
 		return p
@@ -713,12 +745,18 @@ func genC14(r *R, sc *Scenario, tier string) {
 						p.Backoff = iptr(u + 5)
 					}
 				case 5:
-					p.Disabled = !p.Disabled
+					if p.Readiness != nil && p.Readiness.HTTP != nil {
+						p.Backoff = iptr(u + 7) // (it stays disabled: its probe would open a real socket)
+					} else {
+						p.Disabled = !p.Disabled
+					}
 				case 6:
 					if p.Readiness == nil {
 						p.Readiness = &ProbeSpec{Token: p.Name, Period: iptr(Pick(r, 1, 2))}
 					} else if r.P(500) {
 						p.Readiness = nil
+					} else if p.Readiness.Period == nil {
+						p.Readiness.Period = iptr(2)
 					} else {
 						p.Readiness.Period = iptr(*p.Readiness.Period + 1)
 					}
@@ -791,6 +829,9 @@ func genC14(r *R, sc *Scenario, tier string) {
 			ts.Launches[0].LifeMs, ts.Launches[0].Exit, ts.Launches[0].TermLagMs = -1, 0, Pick(r, 500, 1000, 2000)
 		}
 		slow.Restart, slow.Backoff, slow.Disabled, slow.DependsOn = "", nil, false, nil
+		if slow.Readiness != nil && slow.Readiness.HTTP != nil {
+			slow.Readiness = nil // (it runs now: no probe that would open a real socket)
+		}
 		sc.Updates = nil
 		for k := 0; k < 2; k++ {
 			np := cloneSpec(spec)
